@@ -48,7 +48,7 @@ def gen_cases(tier, seed):
     # the same fits requested through a joint model: per-dimension fit descriptions (method, weights - possibly omitted)
     jrng = np.random.default_rng([seed, 13, 9])
     for i in range(10 if tier == "quick" else 150):
-        cases.append({"kind": "joint", "sub": int(jrng.integers(1 << 31)), "n": int(jrng.choice([3000, 8000])), "w0": [None, "linear", "quadratic", "cubic", "omitted"][i % 5], "w1": ["omitted", None, "quadratic", "omitted", "linear"][(i // 2) % 5], "m0": ["wlsq", "lsq"][i % 2], "m1": ["lsq", "wlsq"][(i // 3) % 2], "delta1": [None, 2.0][(i // 2) % 2]})
+        cases.append({"kind": "joint", "sub": int(jrng.integers(1 << 31)), "n": int(jrng.choice([3000, 8000])), "w0": [None, "linear", "quadratic", "cubic", "omitted"][i % 5], "w1": ["omitted", None, "quadratic", "omitted", "linear"][(i // 2) % 5], "m0": ["wlsq", "lsq", "WLSQ", "Lsq"][i % 4], "m1": ["lsq", "wlsq", "LSQ", "Wlsq"][(i // 3) % 4], "delta1": [None, 2.0][(i // 2) % 2]})
     return cases
 
 
